@@ -16,8 +16,9 @@ is the fact that a Go map has each key once.
 import PubModel.C19.LemmasAlls
 import PubModel.C19.LemmasRev
 import PubModel.C19.LemmasLayout2
-import PubModel.C19.LemmasCycle
+import PubModel.C19.LemmasCycle2
 import PubModel.C19.LemmasTotal
+import PubModel.C19.LemmasSeq
 
 namespace PubModel.C19
 
@@ -31,6 +32,35 @@ theorem layer_mono {g : Graph} (hn : (nodes g).Nodup) {ls : List (List Nat)}
 
 -- non-vacuity: an accepted graph with edges, its layers
 example : checkDAG [(0, [1, 2]), (1, [2]), (2, []), (3, [2])] = .ok [[0, 3], [1], [2]] := by decide
+
+/-- **The layering does not depend on Go's map order**: running the inner loops of
+    `makeLayers` literally (`out.nhit++; if out.nhit == len(out.Ins) { next += out }`),
+    with `cur` and every `Outs` map traversed in any order, yields exactly the hit
+    counters and the next layer of the order-free model (`kahnNhit`, `kahnNext`), and
+    no node is appended twice. -/
+theorem round_order_free {g : Graph} {ins : Nat → Nat} {nhit : Tbl Nat} {cur order : List Nat}
+    {outOrder : Nat → List Nat} (hperm : order.Perm cur) (houts : ∀ u, (outOrder u).Perm (succs g u)) :
+    (∀ v ∈ nodes g, (roundSeq ins nhit.get order outOrder).1 v = (kahnNhit g nhit cur).get v) ∧
+    (∀ v ∈ nodes g, v ∈ (roundSeq ins nhit.get order outOrder).2 ↔
+        v ∈ kahnNext g ins nhit (kahnNhit g nhit cur)) ∧
+    (roundSeq ins nhit.get order outOrder).2.Nodup := by
+  obtain ⟨h1, h2, h3⟩ := foldl_hitOne ins (order.flatMap outOrder) nhit.get []
+  refine ⟨?_, ?_, h3 List.nodup_nil (by simp)⟩
+  · intro v hv
+    unfold roundSeq kahnNhit
+    rw [h1 v, get_tab_mem _ hv, count_traversal hperm houts]
+  · intro v hv
+    unfold roundSeq kahnNext kahnNhit
+    rw [h2 v, count_traversal hperm houts]
+    simp only [List.not_mem_nil, false_or, List.mem_filter, hv, true_and, Bool.and_eq_true,
+      decide_eq_true_eq, get_tab_mem _ hv]
+
+-- non-vacuity: two traversal orders of the first round of a diamond give the same result
+example : (roundSeq (fun v => if v = 3 then 2 else if v = 0 then 0 else 1) (fun _ => 0) [1, 2]
+      (fun u => if u = 1 then [3] else if u = 2 then [3, 4] else [])).2 = [3, 4].reverse ∧
+    (roundSeq (fun v => if v = 3 then 2 else if v = 0 then 0 else 1) (fun _ => 0) [2, 1]
+      (fun u => if u = 1 then [3] else if u = 2 then [4, 3] else [])).2 = [4, 3].reverse := by
+  decide
 
 /-- **The checker accepts exactly the acyclic graphs whose edge targets all exist.** -/
 theorem check_iff {g : Graph} (hn : (nodes g).Nodup) :
@@ -170,6 +200,18 @@ theorem cycle_min {g : Graph} {k : Nat} (h : checkDAG g = .circle k) :
     rw [hk] at hm
     cases hm
     exact hle
+
+/-- **Some cycle is reported and every reported cycle is simple**: the set of cycles
+    `traceCircle` can return is never empty when a length is announced, and a
+    reported cycle visits no node twice. -/
+theorem cycle_reported {g : Graph} {k : Nat} (h : checkDAG g = .circle k) :
+    (∃ c, reportable g c = true) ∧ (∀ c, reportable g c = true → c.Nodup) := by
+  obtain ⟨_, hk⟩ := checkDAG_circle h
+  refine ⟨reportable_exists hk, fun c hr => ?_⟩
+  apply nodup_of_min_cycle (cycle_real hr)
+  intro c' hc'
+  rw [(cycle_min h).1 c hr]
+  exact (cycle_min h).2 c' hc'
 
 -- non-vacuity: a triangle next to a longer cycle; the three-node cycle is reported, from its smallest node
 example : checkDAG [(0, [1]), (1, [2]), (2, [0, 3]), (3, [4]), (4, [1])] = .circle 3 := by decide
